@@ -4128,18 +4128,18 @@ def vy_filter(lhs: Any, rhs: Any, ctx):
     """
     ts = vy_type(lhs, rhs)
     if ts[0] == types.FunctionType:
+        # (a generator, not filter(): a StopIteration escaping from the
+        # function must not be taken for the end of the list)
         return LazyList(
-            filter(
-                lambda x: safe_apply(lhs, x, ctx=ctx),
-                iterable(rhs, range, ctx=ctx),
-            )
+            x
+            for x in iterable(rhs, range, ctx=ctx)
+            if safe_apply(lhs, x, ctx=ctx)
         )
     elif ts[1] == types.FunctionType:
         return LazyList(
-            filter(
-                lambda x: safe_apply(rhs, x, ctx=ctx),
-                iterable(lhs, range, ctx=ctx),
-            )
+            x
+            for x in iterable(lhs, range, ctx=ctx)
+            if safe_apply(rhs, x, ctx=ctx)
         )
     elif ts == (str, str):
         return "".join(elem for elem in lhs if elem not in rhs)
@@ -4413,13 +4413,13 @@ def vy_zip(lhs, rhs, ctx):
     if isinstance(lhs, types.FunctionType):
         return vy_zip(
             rhs,
-            LazyList(map(lambda x: safe_apply(lhs, x, ctx=ctx), rhs)),
+            LazyList(safe_apply(lhs, x, ctx=ctx) for x in rhs),
             ctx=ctx,
         )
     elif isinstance(rhs, types.FunctionType):
         return vy_zip(
             lhs,
-            LazyList(map(lambda x: safe_apply(rhs, x, ctx=ctx), lhs)),
+            LazyList(safe_apply(rhs, x, ctx=ctx) for x in lhs),
             ctx=ctx,
         )
     else:
